@@ -34,7 +34,7 @@ static bool ref_binary(const C *s, unsigned p) {
     while (p != 0) { --p; if (s[p] != C(' ')) return is_digit(s[p]) || s[p] == C(')') || s[p] == C('}'); }
     return false;
 }
-struct Tok { unsigned op; unsigned pos; bool reads_next; };
+struct Tok { unsigned op; unsigned pos; unsigned reads_next; };
 // first operator at or after `from` inside [from, end): its code and position (NoOp: pos == end; unclosed bracket: Error)
 static Tok ref_next(const C *s, unsigned from, unsigned end) {
     Tok t; t.op = O_NoOp; t.pos = end; t.reads_next = false;
@@ -108,6 +108,7 @@ extern "C" void h_isexpr() {
     vf_witness();
 }
 
+static unsigned op_len(unsigned op) { return (op >= O_Or && op <= O_Le) ? 2u : 1u; }
 // ---------------------------------------------------------------- parseExpressions with parseValue stubbed
 struct VCall { unsigned oper, last, start, end; bool ret; };
 static VCall g_vc[L + 2]; static unsigned g_nv; static const C *g_buf;
@@ -118,34 +119,38 @@ extern "C" bool fn_parse_value(Array<QE> *exprs, unsigned char oper, unsigned ch
     unsigned k = g_nv; vf_assert(k < L + 2, 22);
     bool r = vf_u8() & 1;
     g_vc[k].oper = oper; g_vc[k].last = last_oper; g_vc[k].start = offset; g_vc[k].end = end_offset; g_vc[k].ret = r; g_nv = k + 1;
-    if (r && exprs->Size() == 0) { QE e; e.Type = ET::NaturalNumber; *exprs += Memory::Move(e); }   // an accepted operand leaves the list non-empty
+    if (exprs->Capacity() == 0) exprs->Reserve(1);       // marks the caller's list (no items: their destructors are not the subject); a rejected text returns a fresh list
     return r;
 }
-static unsigned op_len(unsigned op) { return (op >= O_Or && op <= O_Le) ? 2u : 1u; }
 extern "C" void h_driver() {
     const C *s = vf_buf<C>(L); g_buf = s; g_nv = 0;
-    // reference segmentation first (pure), to decide the known-finding predicate
-    bool oob = false;
-    { unsigned p = 0, guard = 0;
-      while (p < L && guard < L + 1) { Tok t = ref_next(s, p, L); if (t.reads_next && t.pos + 1 == L) oob = true; if (t.op == O_NoOp || t.op == O_Err) break; p = t.pos + op_len(t.op); ++guard; } }
+    // reference segmentation first (pure): the operators in order
+    Tok toks[L + 1]; unsigned nt = 0; bool oob = false;
+    { unsigned p = 0;
+      while (p < L && nt < L + 1) {
+          Tok t = ref_next(s, p, L); toks[nt] = t; ++nt;
+          if (t.reads_next && t.pos + 1 == L) oob = true;
+          if (t.op == O_NoOp || t.op == O_Err) break;
+          p = t.pos + op_len(t.op);
+      } }
 #ifdef KF_EXCL_C04_getop_oob
     vf_assume(!oob);
 #endif
     Array<QE> out = TC::parseExpressions(s, 0, SizeT(L), nullptr);
     // replay the reference against the log
-    unsigned p = 0, k = 0, last = O_NoOp; bool shape = true, accepted = false, stop = false;
-    while (p < L && !stop) {
-        Tok t = ref_next(s, p, L);
+    unsigned p = 0, k = 0, last = O_NoOp; bool shape = true, accepted = false;
+    for (unsigned i = 0; i < nt; i++) {
+        Tok t = toks[i];
         if (t.op == O_Err) break;
         if (!(k < g_nv && g_vc[k].start == p && g_vc[k].end == t.pos && g_vc[k].oper == t.op && g_vc[k].last == last)) { shape = false; break; }
         bool r = g_vc[k].ret; ++k;
         if (!r) break;
-        if (t.op == O_NoOp) { accepted = true; stop = true; }
-        else { last = t.op; p = t.pos + op_len(t.op); }
+        if (t.op == O_NoOp) { accepted = true; break; }
+        last = t.op; p = t.pos + op_len(t.op);
     }
     vf_assert(shape, 1);                                  // operands are exactly the stretches between the operators
     vf_assert(k == g_nv, 2);                              // and nothing else is handed over
-    vf_assert((out.Size() != 0) == accepted, 3);          // accepted iff every operand was and the text ends with an operand
+    vf_assert((out.Capacity() != 0) == accepted, 3);      // the caller's list is returned iff every operand was accepted and the text ends with an operand
     vf_witness();
 }
 
@@ -170,7 +175,8 @@ extern "C" void fn_parse_expressions(Array<QE> *ret, const C *content, unsigned 
     bool some = vf_u8() & 1; g_pe_items = some ? 1u : 0u;
     if (some) { QE e; e.Type = ET::NaturalNumber; e.Value.Number.Natural = 7; *ret += Memory::Move(e); }
 }
-static bool is_ws(C c) { return c == C(' ') || c == C('\n') || c == C('\t') || c == C('\r'); }
+// optnone: clang would turn the comparison chain into a guarded bit test whose shift CBMC flags
+__attribute__((optnone, noinline)) static bool is_ws(C c) { return c == C(' ') || c == C('\n') || c == C('\t') || c == C('\r'); }
 extern "C" void h_value() {
     const C *s = vf_buf<C>(L); g_buf = s; g_num_calls = 0; g_pe_calls = 0;
     unsigned a = vf_u32(); unsigned b = vf_u32(); vf_assume(a <= b && b <= L);
